@@ -233,14 +233,20 @@ def rule_conj(ctx, rep, langs=ALL_LANGS):
         leaves = t.leaves(arm)
         atoms = sorted(_atoms(t, arm))
         want = {'len>=2': ['(B.len() >= 2)'], 'none': [],
-                'pt': ['!only_multipliers', '(B.len() >= 2)', 'B.marker.is_none()']}[lx['conjunction_guard']]
+                'pt': ['!' + PT_OM, '(B.len() >= 2)', 'B.marker.is_none()']}[lx['conjunction_guard']]
         ok = len(leaves) == 1 and leaves[0].sig() == 'Err(Incomplete)' and atoms == sorted(want)
         rep.check(ok, R, ent, 'Err(Incomplete) under %s' % (want or 'no guard'),
                   'conjunction "%s" is handled by %s under %s, expected Err(Incomplete) under %s' % (cj, leaves, atoms, want), _loc(ctx, arm))
 
 
 def _names(t):
-    return {t.b_param[0]: 'B', t.word_param[0]: 'W'}
+    return t.names
+
+
+PT_R = 'Restriction::from_bits_truncate(B.flags)'
+PT_OM = PT_R + '.contains(Restriction::ONLY_MULTIPLIERS)'
+PT_SB = '(%s || ((!%s.contains(Restriction::CONJUNCTION) && self.get_morph_marker(W).is_none()) && !B.is_free(4)))' % (PT_OM, PT_R)
+BLK = 'Excludable::from_bits_truncate(B.flags)'
 
 
 def _atoms(t, arm):
@@ -317,11 +323,11 @@ def _class_requirements(lang, w, lem, v, cls, kind):
         return ['(B.peek(2) != b"10")', '(B.peek(2) != b"20")'], []
     if lang == 'pt':
         if cls == 'unit' and kind == 'card':
-            return ['(B.peek(2) != b"10")', '!smaller_blocked'], []
+            return ['(B.peek(2) != b"10")', '!' + PT_SB], []
         if cls in ('teen', 'ten') or (cls == 'unit' and lem == 'non'):
-            return ['!smaller_blocked'], []
+            return ['!' + PT_SB], []
         if cls == 'hundred_lex':
-            return ['!only_multipliers'], (['next_restrictions = Restriction::ONLY_MULTIPLIERS'] if lem == 'cem' else [])
+            return ['!' + PT_OM], (['$FLAGS = Restriction::ONLY_MULTIPLIERS'] if lem == 'cem' else [])
     if lang == 'it' and cls == 'unit':
         if kind == 'ord' and lem in ('prim', 'second', 'terz', 'quart', 'quint', 'sest', 'settim', 'ottav', 'non'):
             return (['B.is_empty()', '("non" != W)'] if lem == 'non' else ['B.is_empty()']), []
@@ -330,21 +336,21 @@ def _class_requirements(lang, w, lem, v, cls, kind):
         return ['(B.peek(2) != b"10")'], []
     if lang in ('de', 'nl'):
         if cls == 'unit':
-            return ['B.is_free(2)'], ['to_block = Excludable::TENS']
+            return ['B.is_free(2)'], ['$FLAGS = Excludable::TENS']
         if cls == 'ten':
-            return ['!blocked.contains(Excludable::TENS)'], []
+            return ['!' + BLK + '.contains(Excludable::TENS)'], []
     if lang == 'fr':
         if cls == 'unit' and kind == 'card' and w in FR_OWN or (cls == 'unit' and kind == 'ord' and 1 <= v <= 6 and not w.startswith('premi')):
             own = ['UN', 'DEUX', 'TROIS', 'QUATRE', 'CINQ', 'SIX'][v - 1]
-            return ['!blocked.contains(Excludable::%s)' % own], []
+            return ['!' + BLK + '.contains(Excludable::%s)' % own], []
         if cls == 'unit' and w.startswith('premi'):
             return ['B.is_empty()'], []
         if cls == 'vig_teen' and v == 10:
-            return [], ['to_block = Excludable::UN_SIX']
+            return [], ['$FLAGS = Excludable::UN_SIX']
         if cls == 'ten':
-            return [], ['to_block = Excludable::UN']
+            return [], ['$FLAGS = Excludable::UN']
         if cls == 'vig_vingt':
-            return [], ['to_block = Excludable::UN']
+            return [], ['$FLAGS = Excludable::UN']
     return None, None
 
 
@@ -352,34 +358,23 @@ def _flags_postlude(t):
     """`if status.is_ok() { b.flags = to_block.bits(); .. } else { b.flags = 0 }` after the table."""
     names = _names(t)
     for n in H.walk(t.body['value']):
-        if n.get('k') == 'If' and H.render(n['c'], names) == 'status.is_ok()':
+        if n.get('k') == 'If' and H.render(n['c'], names) == '$STATUS.is_ok()':
             then_w = [H.render(x, names) for x in H.find(n['t'], 'Assign')]
             else_w = [H.render(x, names) for x in H.find(n['e'], 'Assign')] if n.get('e') else []
-            if 'B.flags = to_block.bits()' in then_w and 'B.flags = 0' in else_w:
+            if 'B.flags = $FLAGS.bits()' in then_w and 'B.flags = 0' in else_w:
                 return True, ''
             return False, 'postlude writes %s on success and %s on failure' % (then_w, else_w)
-    return False, 'no `if status.is_ok()` postlude found'
+    return False, 'no `if <status>.is_ok()` postlude found'
 
 
 def _pt_definitions(t):
+    """The three-way flag update of the Portuguese postlude (the flag-derived conditions themselves are inlined
+    into the guard atoms, so a changed definition shows up there)."""
     names = _names(t)
-    lets = {}
-    for n in H.walk(t.body['value']):
-        if n.get('k') == 'Let' and n.get('pat', {}).get('k') == 'Binding' and n.get('init'):
-            lets[n['pat']['name']] = H.render(n['init'], names)
-    want = {
-        'restrictions': 'Restriction::from_bits_truncate(B.flags)',
-        'only_multipliers': 'restrictions.contains(Restriction::ONLY_MULTIPLIERS)',
-        'smaller_blocked': '(only_multipliers || ((!restrictions.contains(Restriction::CONJUNCTION) && num_marker.is_none()) && !B.is_free(4)))',
-    }
-    bad = {k: lets.get(k) for k, v in want.items() if lets.get(k) != v}
-    if bad:
-        return False, 'flag-derived conditions changed: %s' % bad
-    # three-way flag update
     rendered = [H.render(x, names) for x in H.find(t.body['value'], 'Assign')]
-    for w in ('B.flags = next_restrictions.bits()', 'B.flags = Restriction::CONJUNCTION.bits()', 'B.flags = 0'):
+    for w in ('B.flags = $FLAGS.bits()', 'B.flags = Restriction::CONJUNCTION.bits()', 'B.flags = 0'):
         if w not in rendered:
-            return False, 'flag update `%s` missing' % w
+            return False, 'flag update `%s` missing (have %s)' % (w, [r for r in rendered if r.startswith('B.flags')])
     return True, ''
 
 
@@ -868,3 +863,156 @@ def rule_o_annotate(ctx, rep):
         o = t.arms_for('o')
         rep.check(bool(z) and bool(o) and z[0] is o[0], R, 'same-arm|' + method, '"o" is a pattern of the arm of "zero" in %s' % method,
                   '"o" and "zero" are handled by different arms in %s' % method)
+
+
+# ---------------------------------------------------------------------------------------
+# Context tables: scale words after a multiplier, blocked words after their blocker.  The builder state after
+# the first word is a constant of the grammar (its digits, and the flags the first word's own arm stores), so
+# the second word's arm selection and guards can be evaluated like the rest of the lexical fragment.
+
+THOUSAND_M = [2, 3, 10, 11, 12, 20, 21, 30, 99, 100, 101, 110, 111, 120, 200, 201, 999]
+MILLION_M = [2, 21, 100, 101, 999]
+SCALE_CONTEXTS = {
+    # lang: [(word, class, multipliers accepted, bare accepted?, multipliers rejected)]
+    'en': [('hundred', 'hundred', list(range(1, 10)), True, []), ('thousand', 'thousand', [1] + THOUSAND_M, True, []),
+           ('million', 'million', [1] + MILLION_M, True, []), ('billion', 'milliard', [1] + MILLION_M, True, [])],
+    'fr': [('cent', 'hundred', list(range(2, 10)), True, [1]), ('cents', 'hundred', list(range(2, 10)), True, [1]),
+           ('mille', 'thousand', THOUSAND_M, True, [1]), ('million', 'million', [1] + MILLION_M, True, []),
+           ('millions', 'million', MILLION_M, True, []), ('milliard', 'milliard', [1] + MILLION_M, True, []),
+           ('milliards', 'milliard', MILLION_M, True, [])],
+    'es': [('mil', 'thousand', THOUSAND_M, True, [1]), ('millón', 'million', [1], True, []), ('millones', 'million', MILLION_M, True, [])],
+    'pt': [('mil', 'thousand', THOUSAND_M, True, [1]), ('milhão', 'million', [1], True, []), ('milhões', 'million', MILLION_M, True, [])],
+    'it': [('cento', 'hundred', list(range(2, 10)), True, [1]), ('mila', 'thousand', THOUSAND_M, False, [1]),
+           ('milione', 'million', [1], False, [2, 21]), ('milioni', 'million', MILLION_M, False, [1]),
+           ('miliardo', 'milliard', [1], False, [2, 21]), ('miliardi', 'milliard', MILLION_M, False, [1])],
+    'de': [('hundert', 'hundred', list(range(1, 10)), True, []), ('tausend', 'thousand', [1] + THOUSAND_M, True, []),
+           ('millionen', 'million', MILLION_M, True, []), ('milliarden', 'milliard', MILLION_M, True, [])],
+    'nl': [('honderd', 'hundred', list(range(2, 10)), True, [1]), ('duizend', 'thousand', THOUSAND_M, True, [1]),
+           ('miljoen', 'million', [1] + MILLION_M, True, []), ('miljard', 'milliard', [1] + MILLION_M, True, [])],
+}
+# flags stored by the word that ends the multiplier, where the scale arm looks at them (pt only)
+PT_FLAGS_AFTER = {100: 2}
+
+
+def rule_scale_contexts(ctx, rep, langs=ALL_LANGS):
+    R = 'A1b-SCALE-CONTEXTS'
+    rep.rule(R, 'hundred / thousand / million / milliard words, evaluated on the builder state left by each multiplier of the '
+                'grammar table (digits of m, flags of its last word), issue their shift; multipliers the language forbids are refused')
+    n = 0
+    for lang in langs:
+        ev = evaluator(ctx, lang)
+        t = table(ctx, lang)
+        for word, cls, ok_m, bare_ok, bad_m in SCALE_CONTEXTS.get(lang, []):
+            want = sorted(expected_ops(lang, cls, 0))[0]
+            cases = [(None, bare_ok)] + [(m, True) for m in ok_m] + [(m, False) for m in bad_m]
+            for m, accept in cases:
+                n += 1
+                flags = PT_FLAGS_AFTER.get(m, 0) if lang == 'pt' else 0
+                b0 = Builder() if m is None else Builder(digits=str(m).encode(), flags=flags)
+                ent = '%s|%s|after %s' % (lang, word, 'nothing' if m is None else m)
+                try:
+                    r, b = ev.run_apply(word, b0)
+                except Compound:
+                    rep.violation(R, ent, 'scale word "%s" is split by the word splitter' % word)
+                    continue
+                except Unanalysable as e:
+                    rep.anchor(R, ent, 'apply("%s") left the analysable fragment: %s' % (word, e))
+                    continue
+                ops = ['%s(%s)' % (o[0], ', '.join(str(x) for x in o[1:])) for o in b.ops if o[0] != 'freeze']
+                got_ok = isinstance(r, Res) and r.ok
+                loc = None
+                arms = t.arms_for(ev.lemma(t, word))
+                if arms:
+                    loc = _loc(ctx, arms[0])
+                if accept:
+                    rep.check(got_ok and ops == [want], R, ent, '%s -> %s' % ('"%s" after %s' % (word, m), want),
+                              '"%s" after the multiplier %s is %r with %s, expected Ok with [%s]: the standard spelling of %s is rejected or split' % (
+                                  word, m, r, ops, want, ('%d x 10^k' % m) if m else 'the bare scale word'), loc)
+                else:
+                    rep.check(not got_ok, R, ent, '"%s" after %s is refused' % (word, 'nothing' if m is None else m),
+                              '"%s" after %s is accepted (%s) although the language does not allow that multiplier' % (word, m, ops), loc)
+    rep.floor(R, n, 280, 'scale-word contexts evaluated')
+
+
+BLOCK_CONTEXTS = {
+    # lang: [(first words, second words that must be refused right after, second words that must stay accepted)]
+    'fr': [(['dix'], ['un', 'deux', 'trois', 'quatre', 'cinq', 'six'], ['sept', 'huit', 'neuf']),
+           (['vingt', 'trente', 'quarante', 'cinquante', 'soixante', 'septante', 'huitante', 'octante', 'nonante'], ['un'],
+            ['deux', 'trois', 'quatre', 'cinq', 'six', 'sept', 'huit', 'neuf'])],
+    'de': [(['ein', 'zwei', 'drei', 'vier', 'fünf', 'sechs', 'sieben', 'acht', 'neun'],
+            ['zwanzig', 'dreißig', 'vierzig', 'fünfzig', 'sechzig', 'siebzig', 'achtzig', 'neunzig'], [])],
+    'nl': [(['een', 'twee', 'drie', 'vier', 'vijf', 'zes', 'zeven', 'acht', 'negen'],
+            ['twintig', 'dertig', 'veertig', 'vijftig', 'zestig', 'zeventig', 'tachtig', 'negentig'], [])],
+    'pt': [(['cem'], ['um', 'dois', 'dez', 'onze', 'vinte', 'noventa', 'duzentos'], [])],
+}
+
+
+def rule_block_contexts(ctx, rep, langs=ALL_LANGS):
+    R = 'A7b-BLOCK-CONTEXTS'
+    rep.rule(R, 'the flags a word stores really block the words its class must keep apart: evaluated on the builder state (digits, '
+                'flags) the first word leaves on a fresh builder, the second word is refused (resp. still accepted)')
+    n = 0
+    for lang in langs:
+        ev = evaluator(ctx, lang)
+        for firsts, refused, accepted in BLOCK_CONTEXTS.get(lang, []):
+            for f1 in firsts:
+                try:
+                    r1, b1 = ev.run_apply(f1)
+                except (Compound, Unanalysable) as e:
+                    rep.anchor(R, '%s|%s' % (lang, f1), 'cannot evaluate apply("%s"): %s' % (f1, e))
+                    continue
+                digits = _digits_after(b1)
+                if not (isinstance(r1, Res) and r1.ok) or digits is None:
+                    rep.anchor(R, '%s|%s' % (lang, f1), 'first word "%s" is not accepted on a fresh builder (%r)' % (f1, r1))
+                    continue
+                for w2, must_refuse in [(w, True) for w in refused] + [(w, False) for w in accepted]:
+                    n += 1
+                    ent = '%s|%s %s' % (lang, f1, w2)
+                    try:
+                        r2, b2 = ev.run_apply(w2, Builder(digits=digits, flags=b1.flags))
+                    except (Compound, Unanalysable) as e:
+                        rep.anchor(R, ent, 'cannot evaluate apply("%s"): %s' % (w2, e))
+                        continue
+                    ok2 = isinstance(r2, Res) and r2.ok
+                    if must_refuse:
+                        rep.check(not ok2, R, ent, '"%s" right after "%s" is refused' % (w2, f1),
+                                  '"%s" right after "%s" is accepted (flags %s): the two numbers are fused' % (w2, f1, b1.flags))
+                    else:
+                        rep.check(ok2, R, ent, '"%s" right after "%s" is accepted' % (w2, f1),
+                                  '"%s" right after "%s" is refused (%r): a standard compound is rejected' % (w2, f1, r2))
+    rep.floor(R, n, 150, 'blocking contexts evaluated')
+    # flag constants: single distinct bits, aggregates are the union of their members
+    for lang, ty, singles, aggregates in (('fr', 'lang::fr::Excludable', ['UN', 'DEUX', 'TROIS', 'QUATRE', 'CINQ', 'SIX'], {'UN_SIX': ['UN', 'DEUX', 'TROIS', 'QUATRE', 'CINQ', 'SIX']}),
+                                          ('de', 'lang::de::Excludable', ['TENS'], {}), ('nl', 'lang::nl::Excludable', ['TENS'], {}),
+                                          ('pt', 'lang::pt::Restriction', ['CONJUNCTION', 'ONLY_MULTIPLIERS'], {})):
+        if lang not in langs:
+            continue
+        ev = evaluator(ctx, lang)
+        try:
+            vals = {nme: ev.const_value('%s::%s' % (ty, nme)).bits for nme in singles + list(aggregates)}
+        except (Unanalysable, AttributeError) as e:
+            rep.anchor(R, lang + '|flag-constants', 'cannot evaluate the flag constants of %s: %s' % (ty, e))
+            continue
+        ok = all(vals[s] and vals[s] & (vals[s] - 1) == 0 for s in singles) and len({vals[s] for s in singles}) == len(singles)
+        for agg, members in aggregates.items():
+            u = 0
+            for mname in members:
+                u |= vals[mname]
+            ok = ok and vals[agg] == u
+        rep.check(ok, R, lang + '|flag-constants', 'flag constants are distinct single bits, aggregates are unions: %s' % vals,
+                  'flag constants of %s are inconsistent: %s' % (ty, vals))
+
+
+def _digits_after(b):
+    """Digits a fresh builder holds after the single logged placing operation."""
+    ops = [o for o in b.ops if o[0] in ('put', 'fput', 'put_digit_at', 'shift', 'push')]
+    if len(ops) != 1:
+        return None
+    o = ops[0]
+    if o[0] in ('put', 'fput', 'push'):
+        return bytes(o[1])
+    if o[0] == 'put_digit_at':
+        return bytes([o[1]]) + b'0' * o[2]
+    if o[0] == 'shift':
+        return b'1' + b'0' * o[1]
+    return None
